@@ -1,1 +1,50 @@
-From Verif Require Import Base Tokens Scanner Parser Tie.
+(* C01 -- Formula grammar: precedence, associativity, nothing silently ignored.
+   Only final statements; proofs live in Proofs/.  The model (Model/Scanner.v, Model/Parser.v) is
+   tied to /repo by Generated/Tie.v (tables) and by the C01 correspondence (procedures). *)
+From Verif Require Import Base Tokens Scanner Parser Algebra Grammar ParserSound ParserComplete.
+From Verif Require Tie.
+
+(* Every token list the parser accepts is a sentence of the stratified precedence grammar and the
+   tree returned is the one the grammar dictates; the derivation accounts for every token in front
+   of the end marker (nothing is ignored, no left-over tokens, brackets balance). *)
+Theorem C01_parse_sound : forall ts e, parse ts = Ok e -> Sentence ts e.
+Proof. exact parse_sound. Qed.
+
+(* Conversely every sentence is accepted with exactly that tree: the accepted language IS the
+   grammar, so anything that is not a sentence is rejected. *)
+Theorem C01_parse_iff : forall ts e, parse ts = Ok e <-> Sentence ts e.
+Proof. exact parse_iff. Qed.
+
+(* The grammar (hence the documented precedence and left associativity) determines one tree. *)
+Theorem C01_grammar_unambiguous : forall body e1 e2, DExpr body e1 -> DExpr body e2 -> e1 = e2.
+Proof. exact grammar_unambiguous. Qed.
+
+(* The fuel the model passes is never exhausted: no input is rejected because the model gave up. *)
+Theorem C01_fuel_enough : forall ts, parse ts <> Err OutOfFuel.
+Proof. exact parse_never_out_of_fuel. Qed.
+
+(* Redundant parentheses never change the model. *)
+Theorem C01_grouping_transparent : forall e, resolve (EGrouping e) = resolve e.
+Proof. reflexivity. Qed.
+
+(* Non-vacuity: a concrete formula is a sentence with the expected left-associative tree. *)
+Example C01_example :
+  exists ts e, scan "y ~ a - b + c*d:e" = Ok ts /\ parse ts = Ok e /\ Sentence ts e /\
+    match e with
+    | EBinary _ _ (EBinary (EBinary (EBinary _ _ _) m _) p (EBinary _ s (EBinary _ c _))) =>
+        tkind m = MINUS /\ tkind p = PLUS /\ tkind s = STAR /\ tkind c = COLON
+    | _ => False end.
+Proof.
+  eexists. eexists. split; [vm_compute; reflexivity|]. split; [vm_compute; reflexivity|].
+  split; [apply parse_sound; vm_compute; reflexivity | vm_compute; auto].
+Qed.
+
+(* The pinned snapshot (no end-of-input check) violated the property: tokens were dropped. *)
+Example C01_refuted_without_eof_check :
+  exists ts e, scan "y ~ x z" = Ok ts /\ parse_with false ts = Ok e /\ parse ts = Err EParse.
+Proof. eexists. eexists. repeat split; vm_compute; reflexivity. Qed.
+
+Print Assumptions C01_parse_sound.
+Print Assumptions C01_parse_iff.
+Print Assumptions C01_grammar_unambiguous.
+Print Assumptions C01_fuel_enough.
